@@ -94,8 +94,31 @@ def families(tier="quick"):
     fam["func"] = [{"name": "func_" + "_".join("%x" % i for i in c),
                     "text": "main:\n    jal ra, f\n" + EXIT + "f:\n    addi sp, sp, -8\n" + "".join("    %s\n" % F[i] for i in c) + "    addi sp, sp, 8\n    ret\ng:\n    li a0, 1\n    ret\n"}
                    for L in range(1, m + 1) for c in itertools.product(range(len(F)), repeat=L)]
+    # arithmetic bodies: constant folding and the x0-sourced generated facts through the whole pipeline
+    B = ARITH_ALPHABET
+    k = 3 if tier == "quick" else 4
+    fam["arith"] = [{"name": "ari_" + "_".join("%x" % i for i in c),
+                     "text": ".data\ndata: .word 1, 2\n.text\n" + wrap([B[i] for i in c])}
+                    for c in itertools.product(range(len(B)), repeat=k)]
     return fam
 
+
+ARITH_ALPHABET = [
+    "li t0, -7",
+    "li t1, 3",
+    "lui t0, 0xfffff",
+    "mul t2, t0, t1",
+    "mulhu t2, t0, t1",
+    "div t2, t0, t1",
+    "rem t2, t1, t0",
+    "div t1, t0, x0",
+    "sll t2, t1, t0",
+    "srai t0, t0, 31",
+    "sltiu t1, x0, 1",
+    "sub t0, x0, t1",
+    "la t1, data",
+    "lw t0, 4(t1)",
+]
 
 FUNC_ALPHABET = [
     "sw s0, 4(sp)",
